@@ -240,6 +240,10 @@ type Exec struct {
 	ModelHits  int
 	model      map[string]uint64 // an assignment known to satisfy the current pc (or nil)
 	curFn      string
+	tracing     bool
+	events      []TraceEvent
+	Traces      map[string][]TraceEvent
+	atomicDepth int
 	pendingAll []*pendingIter
 	NoLazyRange bool
 	sub        *subCtx
@@ -1059,6 +1063,7 @@ type PathResult struct {
 	Funcs        map[string]bool
 	PanicMsg     string
 	KnownHits    []*Witness
+	Traces       map[string][]TraceEvent
 }
 
 // Harness options
@@ -1086,7 +1091,7 @@ func RunPath(p *Program, solver *sym.Solver, fn *ssa.Function, prefix []int32, o
 		res.Violations = e.Violations
 		res.Undischarged = e.Undischarged
 		res.Funcs = e.funcsSeen
-		defer func() { res.KnownHits = e.KnownHits; res.Obligations = e.Obligations }()
+		defer func() { res.KnownHits = e.KnownHits; res.Obligations = e.Obligations; res.Traces = e.Traces }()
 		switch x := r.(type) {
 		case nil:
 			res.End = "done"
@@ -1153,6 +1158,8 @@ type Stats struct {
 	Discharged    int
 	Violations    []*Witness
 	KnownHits     []*Witness
+	Traces        map[string][][]TraceEvent // distinct traces per name
+	traceSeen     map[string]bool
 	Reach         []*Witness
 	Undischarged  []string
 	Unsupported   map[string]int
@@ -1224,6 +1231,17 @@ func Explore(p *Program, harness string, o Opts, nWorkers int, solverKind string
 				st.Discharged += res.Discharged
 				st.Violations = append(st.Violations, res.Violations...)
 				st.KnownHits = append(st.KnownHits, res.KnownHits...)
+				for tn, tr := range res.Traces {
+					key := tn + "|" + fmt.Sprint(tr)
+					if st.traceSeen == nil {
+						st.traceSeen = map[string]bool{}
+						st.Traces = map[string][][]TraceEvent{}
+					}
+					if !st.traceSeen[key] {
+						st.traceSeen[key] = true
+						st.Traces[tn] = append(st.Traces[tn], tr)
+					}
+				}
 				st.Undischarged = append(st.Undischarged, res.Undischarged...)
 				if res.Reach != nil && len(st.Reach) < 3 {
 					st.Reach = append(st.Reach, res.Reach)
